@@ -1,7 +1,9 @@
 // hx-c18: correspondence harness and property monitor for C18
 // (externally supplied names never reach files outside the component's root).
 //
-// Line protocol (all names hex encoded, "-" = empty string, lists comma separated, "_" = empty list):
+// Line protocol (all names hex encoded, "-" = empty string, lists comma separated, "_" = empty list; the token "@R"
+// between hex pieces of a name stands for the absolute path of the case's root without its leading separator —
+// the real one for the implementation, the virtual one for the model and the monitor):
 //
 //	sb <comp> <rootRel> <variant> <cwdRel>   first line of every case: component (fst|ds|upd|lib), position of the root
 //	                                         inside the sandbox, variant (plain|slash|noexist; upd also nested:
@@ -14,7 +16,8 @@
 //	chd <h> <name> <perm> | hens <h> | hena <h> <path> | henr <h> <rel> | hend <h> <names>
 //	                                         comp dsh (one DirStructure tree per case, calls accumulate): ChildDir / Ensure /
 //	                                         EnsureAbsPath / EnsureRelPath / EnsureRelDir on node <h> (0 = root, children in order of registration)
-//	unz <names>                              UnpackResources on a zip archive with these entry names ("x/" = directory entry)
+//	unz <entries>                            UnpackResources on a zip archive with these entries, in this order: "<name>" (a name ending
+//	                                         in "/" is a directory entry) or "<name>:d" (directory by its attributes, whatever the name)
 //	scan <root>                              ResourceRegistry.ScanStorage(root)
 //	clean|dir|base <p>, join|rel <a> <b>     the stdlib functions the model re-implements
 //	bridge <p>                               api bridge scope check (path.Join + prefix), via api.VerifBridgeScope
@@ -154,7 +157,83 @@ func (e *exec) Close() error {
 	return nil
 }
 
-func hx(s string) string { return hxlib.Hex([]byte(s)) }
+// rootTok marks, inside a generated name, the place where the absolute path of the root (without the leading
+// separator) is to be embedded; on op lines it is written "@R" between hex pieces.
+const rootTok = "\x00@R\x00"
+
+func hx(s string) string {
+	if !strings.Contains(s, rootTok) {
+		return hxlib.Hex([]byte(s))
+	}
+	parts := strings.Split(s, rootTok)
+	for i, p := range parts {
+		parts[i] = hxlib.Hex([]byte(p))
+	}
+	return strings.Join(parts, "@R")
+}
+
+// unhxR decodes a name; "@R" becomes rootNoSlash.
+func unhxR(s, rootNoSlash string) (string, bool) {
+	if s == "-" {
+		return "", true
+	}
+	if !strings.Contains(s, "@R") {
+		return unhx(s)
+	}
+	parts := strings.Split(s, "@R")
+	for i, p := range parts {
+		if p == "-" {
+			return "", false
+		}
+		x, ok := unhx(p)
+		if !ok {
+			return "", false
+		}
+		parts[i] = x
+	}
+	return strings.Join(parts, rootNoSlash), true
+}
+
+func unhxListR(s, rootNoSlash string) ([]string, bool) {
+	if s == "_" {
+		return nil, true
+	}
+	var out []string
+	for _, p := range strings.Split(s, ",") {
+		x, ok := unhxR(p, rootNoSlash)
+		if !ok {
+			return nil, false
+		}
+		out = append(out, x)
+	}
+	return out, true
+}
+
+// zentry is one entry of a generated archive.
+type zentry struct {
+	name string
+	dir  bool // the entry's attributes say "directory" (a name ending in "/" is a directory anyway)
+}
+
+func unhxEntriesR(s, rootNoSlash string) ([]zentry, bool) {
+	if s == "_" {
+		return nil, true
+	}
+	var out []zentry
+	for _, p := range strings.Split(s, ",") {
+		d := strings.HasSuffix(p, ":d")
+		x, ok := unhxR(strings.TrimSuffix(p, ":d"), rootNoSlash)
+		if !ok {
+			return nil, false
+		}
+		out = append(out, zentry{x, d})
+	}
+	return out, true
+}
+
+// name / nameList decode the names of an op line for the implementation: the token is the real root.
+func (e *exec) name(s string) (string, bool)       { return unhxR(s, e.sb.root[1:]) }
+func (e *exec) nameList(s string) ([]string, bool) { return unhxListR(s, e.sb.root[1:]) }
 
 func unhx(s string) (string, bool) {
 	if s == "-" {
@@ -194,6 +273,9 @@ func hxList(xs []string) string {
 	ys := make([]string, len(xs))
 	for i, x := range xs {
 		ys[i] = hx(x)
+		if x == "" {
+			ys[i] = "-"
+		}
 	}
 	return strings.Join(ys, ",")
 }
@@ -240,17 +322,23 @@ func (e *exec) build() {
 	top := e.caseDir + SB
 	must(os.MkdirAll(top, 0o755))
 	var decoy func(dir string)
+	realRoot := filepath.Join(top, e.rootRel)
 	switch e.comp {
 	case "fst":
 		decoy = func(dir string) {
 			db, err := fstree.NewFSTree(fstDB, dir)
 			must(err)
-			_, err = db.Put(fstRecord("secret", "OUTSIDE:"+SB+dir[len(top):]+"/secret"))
+			// (the mirror's path embeds the real root path: written as the virtual one, so that outputs do not depend on the scratch directory)
+			v := strings.Replace(SB+dir[len(top):], realRoot[1:], (SB + "/" + e.rootRel)[1:], 1)
+			_, err = db.Put(fstRecord("secret", "OUTSIDE:"+v+"/secret"))
 			must(err)
 		}
 	case "upd":
 		decoy = func(dir string) {
 			must(os.WriteFile(filepath.Join(dir, "evil_v6-6-6"), []byte("OUTSIDE resource\n"), 0o644))
+			if strings.HasPrefix(dir, filepath.Join(top, "mirror")+"/") {
+				must(os.MkdirAll(filepath.Join(dir, "tmp", path.Base(unzDest)), 0o755)) // a foreign copy of the unpack dir's path
+			}
 		}
 	}
 	e.sb = newSandbox(e.caseDir, top, e.rootRel, decoy)
@@ -375,10 +463,20 @@ func (e *exec) applyFsState() {
 	}
 }
 
-// listAll lists every file and directory of the sandbox (inside and outside the root).
+// listAll lists every file and directory of the sandbox (inside and outside the root): outside as of the oracle's
+// latest snapshot (taken after the previous component call; nothing but component calls touches the outside),
+// inside by a walk of the root.
 func (e *exec) listAll() map[string]bool {
-	m := map[string]bool{}
-	_ = filepath.Walk(e.sb.scope, func(p string, info os.FileInfo, err error) error {
+	s := e.sb
+	if s.snap == nil {
+		s.snap = s.snapshot()
+		s.watch()
+	}
+	m := make(map[string]bool, len(s.outside)+16)
+	for p, d := range s.outside {
+		m[p] = d
+	}
+	_ = filepath.Walk(s.root, func(p string, info os.FileInfo, err error) error {
 		if err == nil {
 			m[p] = info.IsDir()
 		}
@@ -526,7 +624,7 @@ func (e *exec) prepare(f []string) (call func(), finish finishFn) {
 	s := e.sb
 	switch {
 	case e.comp == "fst" && len(f) == 2 && (f[0] == "put" || f[0] == "get" || f[0] == "gmt" || f[0] == "del" || f[0] == "qry"):
-		key, ok := unhx(f[1])
+		key, ok := e.name(f[1])
 		if !ok {
 			return nil, nil
 		}
@@ -546,20 +644,20 @@ func (e *exec) prepare(f []string) (call func(), finish finishFn) {
 		var err error
 		switch f[0] {
 		case "ens":
-			p, ok := unhx(f[2])
+			p, ok := e.name(f[2])
 			if !ok {
 				return nil, nil
 			}
 			call = func() { err = target.EnsureAbsPath(s.real(p)) }
 		case "enr":
-			p, ok := unhx(f[2])
+			p, ok := e.name(f[2])
 			if !ok {
 				return nil, nil
 			}
 			// EnsureRelPath / EnsureRelDir join with the receiver's own path; the model describes the root structure
 			call = func() { err = e.ds.EnsureRelPath(p) }
 		case "end":
-			xs, ok := unhxList(f[2])
+			xs, ok := e.nameList(f[2])
 			if !ok {
 				return nil, nil
 			}
@@ -588,7 +686,7 @@ func (e *exec) prepare(f []string) (call func(), finish finishFn) {
 	case e.comp == "dsh":
 		return e.prepDsh(f)
 	case e.comp == "upd" && len(f) == 2 && f[0] == "scan":
-		root, ok := unhx(f[1])
+		root, ok := e.name(f[1])
 		if !ok {
 			return nil, nil
 		}
@@ -606,17 +704,17 @@ func (e *exec) prepare(f []string) (call func(), finish finishFn) {
 			}
 			var ids []string
 			for id := range reg.Export() {
-				ids = append(ids, id)
+				ids = append(ids, strings.ReplaceAll(id, s.root[1:], s.root[len(s.scope)+1:])) // (names built from the root's path: shown virtual)
 			}
 			sort.Strings(ids)
 			return "acc ids " + hxList(ids), false
 		}
 	case e.comp == "upd" && len(f) == 2 && f[0] == "unz":
-		names, ok := unhxList(f[1])
+		entries, ok := unhxEntriesR(f[1], e.sb.root[1:])
 		if !ok {
 			return nil, nil
 		}
-		return e.prepUnzip(names)
+		return e.prepUnzip(entries)
 	}
 	return nil, nil
 }
@@ -810,7 +908,7 @@ func (e *exec) prepDsh(f []string) (func(), finishFn) {
 		if len(f) != 4 {
 			return nil, nil
 		}
-		name, ok := unhx(f[2])
+		name, ok := e.name(f[2])
 		perm, ok2 := parsePerm(f[3])
 		if !ok || !ok2 {
 			return nil, nil
@@ -828,19 +926,19 @@ func (e *exec) prepDsh(f []string) (func(), finishFn) {
 	case f[0] == "hens" && len(f) == 2:
 		call = func() { err = node.Ensure() }
 	case f[0] == "hena" && len(f) == 3:
-		p, ok := unhx(f[2])
+		p, ok := e.name(f[2])
 		if !ok {
 			return nil, nil
 		}
 		call = func() { err = node.EnsureAbsPath(s.real(p)) }
 	case f[0] == "henr" && len(f) == 3:
-		p, ok := unhx(f[2])
+		p, ok := e.name(f[2])
 		if !ok {
 			return nil, nil
 		}
 		call = func() { err = node.EnsureRelPath(p) }
 	case f[0] == "hend" && len(f) == 3:
-		xs, ok := unhxList(f[2])
+		xs, ok := e.nameList(f[2])
 		if !ok {
 			return nil, nil
 		}
@@ -889,17 +987,18 @@ const (
 	unzDest       = "pkg/thing_v1-0-0"
 )
 
-func (e *exec) prepUnzip(names []string) (func(), finishFn) {
+func (e *exec) prepUnzip(entries []zentry) (func(), finishFn) {
 	s := e.sb
 	fail := func(d string) (func(), finishFn) {
 		return func() {}, func() (string, bool) { return d, true }
 	}
 	var buf bytes.Buffer
 	zw := zip.NewWriter(&buf)
-	for i, n := range names {
+	for i, en := range entries {
+		n := en.name
 		fh := &zip.FileHeader{Name: n, Method: zip.Store}
-		if strings.HasSuffix(n, "/") {
-			fh.SetMode(os.ModeDir | 0o755)
+		if strings.HasSuffix(n, "/") || en.dir {
+			fh.SetMode(os.ModeDir | 0o755) // (unix attributes + the MS-DOS directory bit)
 		} else {
 			fh.SetMode(0o644)
 		}
@@ -907,7 +1006,7 @@ func (e *exec) prepUnzip(names []string) (func(), finishFn) {
 		if err != nil {
 			return nil, nil
 		}
-		if !strings.HasSuffix(n, "/") {
+		if !strings.HasSuffix(n, "/") && !en.dir {
 			fmt.Fprintf(w, "ENTRY-%d", i)
 		}
 	}
